@@ -83,7 +83,7 @@ impl<T: Qcow2IoOps> Qcow2Dev<T> {
         &self,
         reftable: &LockWriteGuard<RefTable>,
         grown_rt: &mut RefTable,
-    ) -> Qcow2Result<()> {
+    ) -> Qcow2Result<Option<(u64, usize)>> {
         let info = &self.info;
         let new_rt_clusters = grown_rt.cluster_count(info);
         if new_rt_clusters >= info.rb_entries() - 1 {
@@ -105,7 +105,18 @@ impl<T: Qcow2IoOps> Qcow2Dev<T> {
 
         let rb_size = 1 << info.rb_slice_bits;
         let mut new_refblock = RefBlock::new(info.refcount_order(), rb_size, None);
+        if new_rt_clusters + 1 > new_refblock.entries() {
+            return Err(format!(
+                "The reftable needs to grow to {} clusters, but only {} fit into the first \
+                 refblock slice -- try increasing the refblock slice size",
+                new_rt_clusters,
+                new_refblock.entries() - 1
+            )
+            .into());
+        }
 
+        // the first host region the old reftable does not cover: nothing can
+        // have been allocated there
         let refblock_offset =
             (reftable.entries() as u64) << (info.rb_index_shift + info.cluster_shift);
         new_refblock.set_offset(Some(refblock_offset));
@@ -113,36 +124,47 @@ impl<T: Qcow2IoOps> Qcow2Dev<T> {
         grown_rt.set_offset(Some(rt_offset));
 
         // Reference for the refblock
-        new_refblock.increment(0).unwrap();
+        new_refblock.increment(0)?;
         // References for the reftable
         for i in 1..(new_rt_clusters + 1) {
-            new_refblock.increment(i).unwrap();
+            new_refblock.increment(i)?;
         }
 
-        let cls = HostCluster(refblock_offset);
+        // The new reftable is written as a whole below, including entries
+        // which are still dirty in the old one: the refblock slices they
+        // point to have to be on disk first, like in flush_refcount().
+        self.flush_cache(&self.refblock_cache, 0, usize::MAX).await?;
 
-        let rb_before = self.call_fallocate(
-            cls.rb_slice_host_start(info),
-            (refblock_offset - cls.rb_slice_host_start(info))
-                .try_into()
-                .unwrap(),
-            Qcow2OpsFlags::FALLOCATE_ZERO_RANGE,
-        );
-        let rb = self.flush_table(&new_refblock, 0, new_refblock.byte_size());
-        let rb_after = self.call_fallocate(
-            refblock_offset + rb_size as u64,
-            cls.rb_slice_host_end(info) as usize - refblock_offset as usize - rb_size,
-            Qcow2OpsFlags::FALLOCATE_ZERO_RANGE,
-        );
-        let (res0, res1, res2) = futures::join!(rb_before, rb, rb_after);
-        if res0.is_err() || res1.is_err() || res2.is_err() {
-            return Err("Failed to flush refcount block or discard other parts".into());
+        // the new refblock: its first slice holds the refcounts, the rest of
+        // the cluster is zero
+        let rest = info.cluster_size() - rb_size;
+        if rest > 0 {
+            self.call_fallocate(
+                refblock_offset + rb_size as u64,
+                rest,
+                Qcow2OpsFlags::FALLOCATE_ZERO_RANGE,
+            )
+            .await?;
         }
-
-        //todo: write all dirty refcount_block
+        self.flush_table(&new_refblock, 0, new_refblock.byte_size())
+            .await?;
 
         grown_rt.set_refblock_offset(reftable.entries(), refblock_offset);
-        self.flush_top_table(grown_rt).await?;
+        // every block of the relocated table is new on disk
+        self.flush_table(grown_rt, 0, grown_rt.byte_size()).await?;
+        while grown_rt.pop_dirty_blk_idx(None).is_some() {}
+        let tail = new_rt_clusters * info.cluster_size() - grown_rt.byte_size();
+        if tail > 0 {
+            self.call_fallocate(
+                rt_offset + grown_rt.byte_size() as u64,
+                tail,
+                Qcow2OpsFlags::FALLOCATE_ZERO_RANGE,
+            )
+            .await?;
+        }
+
+        // the header may point to the new table only once it is durable
+        self.call_fsync(0, usize::MAX, 0).await?;
 
         // write header
         {
@@ -159,9 +181,14 @@ impl<T: Qcow2IoOps> Qcow2Dev<T> {
             .await?;
         }
 
-        self.free_clusters(old_rt_offset, old_rt_clusters).await?;
-
-        Ok(())
+        // The switch is done. The old table may be released (by the caller,
+        // once it has dropped the reftable lock) only when the header is
+        // durable; if that cannot be established the old clusters leak.
+        self.mark_need_flush(true);
+        match self.call_fsync(0, usize::MAX, 0).await {
+            Ok(()) => Ok(Some((old_rt_offset, old_rt_clusters))),
+            Err(_) => Ok(None),
+        }
     }
 
     async fn get_reftable_entry(&self, rt_idx: usize) -> RefTableEntry {
@@ -358,6 +385,26 @@ impl<T: Qcow2IoOps> Qcow2Dev<T> {
             h.reftable_clusters()
         };
 
+        let (rt_e, old_rt) = self.__ensure_refblock_offset(cls, rt_index, rt_clusters).await?;
+
+        // the clusters of a relocated reftable are released only here, with
+        // the reftable lock dropped: free_clusters() takes it again
+        if let Some((old_rt_offset, old_rt_clusters)) = old_rt {
+            self.free_clusters(old_rt_offset, old_rt_clusters).await?;
+        }
+
+        Ok(rt_e)
+    }
+
+    async fn __ensure_refblock_offset(
+        &self,
+        cls: &HostCluster,
+        rt_index: usize,
+        rt_clusters: usize,
+    ) -> Qcow2Result<(RefTableEntry, Option<(u64, usize)>)> {
+        let info = &self.info;
+        let mut old_rt = None;
+
         let mut reftable = self.reftable.write().await;
         log::info!(
             "ensure rt entry: rt_idx {} rt_entries {} host_cluster {:x}",
@@ -368,7 +415,7 @@ impl<T: Qcow2IoOps> Qcow2Dev<T> {
         if !reftable.in_bounds(rt_index) {
             let mut grown_rt = reftable.clone_and_grow(rt_index, rt_clusters, info.cluster_size());
             if !grown_rt.is_update() {
-                self.grow_reftable(&reftable, &mut grown_rt).await?;
+                old_rt = self.grow_reftable(&reftable, &mut grown_rt).await?;
             }
             *reftable = grown_rt;
         }
@@ -376,7 +423,7 @@ impl<T: Qcow2IoOps> Qcow2Dev<T> {
         // Retry before allocating, maybe something has changed in the meantime
         let rt_entry = reftable.get(rt_index);
         if !rt_entry.is_zero() {
-            return Ok(rt_entry);
+            return Ok((rt_entry, old_rt));
         }
 
         // always run background flushing
@@ -413,7 +460,7 @@ impl<T: Qcow2IoOps> Qcow2Dev<T> {
 
         log::debug!("ensure_refblock: done");
 
-        Ok(rt_e)
+        Ok((rt_e, old_rt))
     }
 
     // `fixed_start` means we can't change the specified allocation position
